@@ -300,6 +300,19 @@ def st_septet_value(max_value: int):
 # ---------------------------------------------------------------------------------------------- drivers
 
 
+def warm_hypothesis_constants():
+    """Hypothesis mixes constants harvested from the source of all local modules into its draws and caches them per module
+    in files under its storage directory.  Harvest them here, in the parent, before workers are forked: the workers inherit
+    the finished pool instead of racing each other on the cache files (a worker that reads a sibling's half-written or
+    differently-parsed cache file draws differently => run-to-run differences at one seed)."""
+    try:
+        from hypothesis.internal.conjecture.providers import _get_local_constants
+
+        _get_local_constants()
+    except Exception:  # private API: its absence only costs reproducibility of the class counts, never soundness
+        pass
+
+
 def _enum(ctx: Ctx, sub: SubCheck, oracle, items, expand):
     """items: compact descriptors (pickled to the workers); expand(item) yields (case, class label, non-trivial)"""
 
@@ -343,6 +356,7 @@ def drv_uintvar(ctx: Ctx, sub: SubCheck):
             record=lambda c, tt: tt.case(sub.name, key=c, nontrivial=(c["v"] >= limit and c["v"] not in sp), cls="random:" + uint_class(c["v"])),
         )
 
+    warm_hypothesis_constants()
     ctx.shards(hyp, list(range(16)))
     ctx.tally.extra["uintvar_dense_sweep_upto"] = limit
 
@@ -371,6 +385,7 @@ def drv_sintvar(ctx: Ctx, sub: SubCheck):
             record=lambda c, tt: tt.case(sub.name, key=c, nontrivial=(abs(c["v"]) >= limit and abs(c["v"]) not in sp), cls="random:" + sint_class(c["v"])),
         )
 
+    warm_hypothesis_constants()
     ctx.shards(hyp, list(range(16)))
     ctx.tally.extra["sintvar_dense_sweep_magnitude_upto"] = limit
 
@@ -473,6 +488,7 @@ def _drv_float(ctx: Ctx, sub: SubCheck, signed: bool):
             record=lambda c, tt: tt.case(sub.name, key=c, nontrivial=(c["f"] > 0 and not covered(c["i"], c["f"], c["p"])), cls="random:" + _float_cls(c, signed)),
         )
 
+    warm_hypothesis_constants()
     ctx.shards(hyp, list(range(16)))
 
 
@@ -519,6 +535,7 @@ def drv_latlon(ctx: Ctx, sub: SubCheck):
         ctx.hypothesis(sub.name, strat, oracle_latlon, ctx.pick(150, 4000), tally=t, shard=shard,
                        record=lambda c, tt: tt.case(sub.name, key=c, nontrivial=((c["lat"] > 0 or c["lon"] > 0) and not covered(c)), cls="random"))
 
+    warm_hypothesis_constants()
     ctx.shards(hyp, list(range(16)))
 
 
@@ -572,6 +589,7 @@ def drv_infotime(ctx: Ctx, sub: SubCheck):
         ctx.hypothesis(sub.name, strat, oracle_infotime, ctx.pick(150, 4000), tally=t, shard=shard,
                        record=lambda c, tt: tt.case(sub.name, key=c, nontrivial=(c["dt"][3:] != [0, 0, 0] and not in_enum(c)), cls="random:" + c["form"]))
 
+    warm_hypothesis_constants()
     ctx.shards(hyp, list(range(16)))
 
 
